@@ -233,6 +233,46 @@ C04(pre, e, post, line) ==
             Chk("C04", "never_rejected_when_clearly_healthy", line, RLe(Health(h), h.tol),
                 [acct |-> an, ev |-> e.ev, health_num |-> Health(h)[1], health_den |-> Health(h)[2]])
 
+\* every position the maintenance assessment reads a price for (debts, and deposits in collateral-tier banks) has a usable one
+HoldingsPriced(s, e, a, ptype) ==
+  \A i \in ActiveSlots(a) :
+     LET pr == RefPrice(s, e, a.bal[i].bank, ptype) IN
+     (pr.known /\ (BGe(a.bal[i].l, FONE) \/ (BGe(a.bal[i].a, FONE) /\ s.banks[a.bal[i].bank].cfg.risk_tier = 0))) => pr.usable # "no"
+
+\* ---- EXT (beyond the listed properties): the health cache an instruction leaves behind ---------
+\* pulse_health, borrow and withdraw store the risk engine's own totals in the account.  They must be the reference
+\* valuation of the positions the instruction left (initial requirement; pulse_health also maintenance and equity),
+\* the "healthy" bit must say what the stored totals say, and the stamp must be the current time.  Reported under the
+\* label EXT: a failure is printed as drift of the specification, never as a violation of a listed property.
+HC_HEALTHY == 1
+ExtWithin(x, lo, hi, tol) == RGe(x, RSub(lo, tol)) /\ RLe(x, RAdd(hi, tol))
+ExtHealthReq(post, e, a, hcA, hcL, req, name, line) ==
+  LET f == HealthRef(post, e, a, req, "fav") u == HealthRef(post, e, a, req, "unfav") IN
+  (f.known /\ u.known) =>
+    Chk("EXT", name, line, ExtWithin(R(hcA), u.av, f.av, f.tol) /\ ExtWithin(R(hcL), f.lv, u.lv, u.tol),
+        [acct |-> e.a.acct, ev |-> e.ev, cached_assets |-> hcA, cached_liabs |-> hcL])
+EXTHealth(pre, e, post, line) ==
+  (Ok(e) /\ e.ev \in {"pulse_health", "borrow", "withdraw"} /\ Has(e.a, "acct") /\ Has(post.accts, e.a.acct)
+   /\ ~Bit(post.accts[e.a.acct].flags, ACC_FLASHLOAN) /\ ~Bit(post.accts[e.a.acct].flags, ACC_RECEIVERSHIP)
+   /\ (Has(pre.accts, e.a.acct) => ~Bit(pre.accts[e.a.acct].flags, ACC_RECEIVERSHIP))) =>
+    LET a == post.accts[e.a.acct] hc == a.health IN
+    /\ Chk("EXT", "health_cache_stamped_now", line, hc.ts = post.clock.ts, [acct |-> e.a.acct, ev |-> e.ev])
+    /\ (hc.internal_err = 0 /\ hc.mrgn_err \in {0, 6009}) =>
+         /\ ExtHealthReq(post, e, a, hc.av, hc.lv, "Init", "health_cache_initial_totals_match_reference", line)
+         \* (borrow / withdraw: the initial check's verdict, assets >= liabilities; pulse_health overwrites the bit with the
+         \*  maintenance verdict, which is strict: an empty account is reported as not healthy)
+         /\ (e.ev # "pulse_health") =>
+              Chk("EXT", "health_cache_healthy_bit_says_what_the_totals_say", line, ((hc.flags % 2) = HC_HEALTHY) <=> BGe(hc.av, hc.lv),
+                  [acct |-> e.a.acct, flags |-> hc.flags])
+         /\ (e.ev = "pulse_health" /\ hc.mrgn_err = 0 /\ hc.liq_err \in {0, 6068}) =>
+              /\ ExtHealthReq(post, e, a, hc.avm, hc.lvm, "Maint", "health_cache_maintenance_totals_match_reference", line)
+              /\ Chk("EXT", "health_cache_healthy_bit_says_what_the_totals_say", line, ((hc.flags % 2) = HC_HEALTHY) <=> BGt(hc.avm, hc.lvm),
+                     [acct |-> e.a.acct, flags |-> hc.flags])
+              /\ Chk("EXT", "health_cache_liquidation_verdict_matches_the_bit", line, (hc.liq_err = 6068) <=> ((hc.flags % 2) = HC_HEALTHY),
+                     [acct |-> e.a.acct, flags |-> hc.flags, liq_err |-> hc.liq_err])
+         /\ (e.ev = "pulse_health" /\ hc.mrgn_err = 0 /\ hc.liq_err \in {0, 6068} /\ hc.bk_err \in {0, 6013}) =>
+              ExtHealthReq(post, e, a, hc.ave, hc.lve, "Equity", "health_cache_equity_totals_match_reference", line)
+
 \* ---- C05 classic liquidation ----------------------------------------------------------------
 P95 == RMake(BOfInt(19), BOfInt(20))
 P975 == RMake(BOfInt(39), BOfInt(40))
@@ -267,6 +307,10 @@ C05(pre, e, post, line) ==
     IN
     (hPre.known /\ hPost.known /\ hLor.known /\ pa.known /\ pl.known) =>
     /\ Chk("C05", "liquidatee_was_unhealthy", line, RLt(Health(hPre), hPre.tol), [acct |-> lee])
+    \* "was negative beforehand" cannot be established while a deposit the assessment counts has no usable price (C09: the
+    \* assessment fails instead of guessing - reading such a deposit as worthless would make a healthy account liquidatable)
+    /\ Chk("C05", "health_before_assessed_on_usable_prices_of_every_holding", line,
+           HoldingsPriced(pre, e, pre.accts[lee], "RT"), [acct |-> lee])
     /\ Chk("C05", "health_strictly_improves", line, RGt(RAdd(Health(hPostF), hPostF.tol), RSub(Health(hPre), hPre.tol)),
            [acct |-> lee, pre_num |-> Health(hPre)[1], pre_den |-> Health(hPre)[2], post_num |-> Health(hPostF)[1], post_den |-> Health(hPostF)[2]])
     /\ Chk("C05", "still_not_healthy_afterwards", line, RLe(Health(hPost), hPost.tol), [acct |-> lee])
@@ -412,6 +456,8 @@ C09(pre, e, post, line) ==
          /\ Chk("C09", "liquidation_needs_usable_positive_prices", line,
                 pa.usable # "no" /\ pl.usable # "no" /\ RIsPos(pa.p) /\ RIsPos(pl.p), [asset_bank |-> e.a.asset_bank])
          /\ Chk("C09", "liquidation_assessment_needs_all_debt_priced", line, ~h.liabNoPrice, [acct |-> e.a.liquidatee])
+         /\ Chk("C09", "liquidation_assessment_needs_every_holding_priced", line,
+                HoldingsPriced(pre, e, pre.accts[e.a.liquidatee], "RT"), [acct |-> e.a.liquidatee])
   /\ (e.ev = "bankruptcy" /\ Ok(e)) =>
        LET a == pre.accts[e.a.acct] IN
        Chk("C09", "bankruptcy_assessment_needs_usable_prices", line,
